@@ -114,7 +114,7 @@ func hasLoneCR(s string) bool {
 func isDigit(c byte) bool { return c >= '0' && c <= '9' }
 
 var wsChoices = []string{" ", " ", "  ", "\t", "\n", "\n", "\r\n", "\r", "\n\n", " \t ", "\n    ", "\r\n\t", " \v", "\f ", "\n\r"}
-var commentTexts = []string{"", " c ", "x", " TODO: fix ", "*", " a * b ", "/", "// nested", " # hash ", "$a = 1;", "<?php", "\"quote", "'", "é", "{", "}", "(", " multi\n line ", " cr\r line ", "**"}
+var commentTexts = []string{"", " c ", "x", " TODO: fix ", " *", " a * b ", "/", "// nested", " # hash ", "$a = 1;", "<?php", "\"quote", "'", "é", "{", "}", "(", " multi\n line ", " cr\r line ", " **"}
 var lineCommentTexts = []string{"", " c", "x", " TODO", " a /* b", " '", " \"", " $a = 1;", " <?php", " é", " { }", " */", " ?", " >"}
 
 func (p *Policy) draw(n int, label string) int {
@@ -303,7 +303,10 @@ func (g *Gen) Render(root *ast.Root, pol Policy) *Layout {
 					ps = append(ps, piece{token.T_HALT_COMPILER, string(g.HaltTail)})
 				}
 			} else if pol.T != nil {
-				ps = append(ps, pol.triviaPieces(GapFree, needNL, prevLast, lay)...)
+				if needNL {
+					ps = append(ps, piece{token.T_WHITESPACE, g.nl(pol)})
+				}
+				ps = append(ps, pol.triviaPieces(GapFree, false, prevLast, lay)...)
 			} else if pol.Kind == PolicySpace || needNL {
 				ps = append(ps, piece{token.T_WHITESPACE, "\n"})
 			}
